@@ -6,7 +6,7 @@ use crate::common::*;
 use crate::real::*;
 use crate::universe::*;
 
-const LINES: [&str; 8] = ["a\tF", "ab\tF,G", "\tF", "EOS\tF", "EOS", "a", "a\tF\tx", ""];
+const LINES: [&str; 11] = ["a\tF", "ab\tF,G", "\tF", "EOS\tF", "EOS", "a", "a\tF\tx", "", "b\tF, ", "c\t", "d\tG,\u{3000}"];
 
 type Ex = Vec<(String, String)>;
 
@@ -58,7 +58,7 @@ fn write_real(text: &str) -> Result<Vec<u8>, String> {
 
 pub fn run(tier: Tier) -> i32 {
     let mut rep = Report::new("C19", tier);
-    let depth = tier.pick(5, 6);
+    let depth = tier.pick(4, 5);
     let seqs = all_seqs(LINES.len(), depth);
     const CHUNK: usize = 2048;
     let ntasks = seqs.len().div_ceil(CHUNK);
@@ -216,7 +216,7 @@ pub fn run(tier: Tier) -> i32 {
         }
     });
     st.merge(res);
-    rep.rule = format!("state = corpus text: every sequence of <= {depth} lines from the 8-line menu {{token, token with 2 features, empty-surface token, token spelled EOS, EOS, line without tab, line with two tabs, empty line}}, with and without final newline; parse -> write each example -> re-parse, compared with a reference line reader; plus, for lexicon dictionaries and all tab-free sentences <= {max_len} chars, the MeCab-style output (same writes as the tokenize CLI) must parse into exactly the tokenizer's tokens; distinct = distinct parse results");
+    rep.rule = format!("state = corpus text: every sequence of <= {depth} lines from the 11-line menu {{token, token with 2 features, empty-surface token, token spelled EOS, EOS, line without tab, line with two tabs, empty line, feature ending in a space, empty feature, feature ending in U+3000}}, with and without final newline; parse -> write each example -> re-parse, compared with a reference line reader; plus, for lexicon dictionaries and all tab-free sentences <= {max_len} chars, the MeCab-style output (same writes as the tokenize CLI) must parse into exactly the tokenizer's tokens; distinct = distinct parse results");
     rep.bounds = json!({"max_lines": depth, "closure_sentence_len": max_len});
     rep.assumptions = vec!["a corpus whose last sentence lacks EOS is outside the documented format: the reference, like the code, drops the unterminated tokens".into(), "the tokenize binary itself is not run (it needs zstd images); its three write_all calls per token are mirrored".into()];
     rep.finish(
